@@ -812,7 +812,7 @@ theorem callParamsLoop_ok {fuel : Nat} (ih : FileSpecs AP EL S pf ef N fuel) (pa
               exact ⟨a, by omega⟩
             · apply FSafe.bind
               apply parseQuotedExpr_safe hz pf hlex hi7
-              intro value
+              intro value hpv
               apply FSafe.bind
               apply fexpect_safe hz hi7 (by decide)
               intro rd st9 hi9 _ _ _ hm9 _
